@@ -13,7 +13,7 @@ from harness.props import c01
 from harness.props.c04 import compare_factor, snapshot
 
 OBLIGATIONS = [
-    "PgmVerif.C16_perm_invariant", "PgmVerif.C16_rename_den", "PgmVerif.C16_rename_joint",
+    "PgmVerif.C16_perm_invariant", "PgmVerif.C16_rename_den", "PgmVerif.C16_rename_roundtrip", "PgmVerif.C16_rename_joint",
     "PgmVerif.C16_engine_history", "PgmVerif.C16_sumOut_perm",
 ]
 PARTIAL = ["purity (no mutation of arguments) is a heap fact: decided by deep snapshots around every call",
